@@ -227,6 +227,18 @@ func TestVerifC07b(t *testing.T) {
 	}
 
 	var ins, classes []string
+	var replayBodies []string
+	// --replay <file>: the failing query / request body of the replay file goes first
+	if rp := vfReplay(); rp != nil {
+		if rr, ok := rp["replay"].(map[string]any); ok {
+			if q, ok := rr["query"].(string); ok {
+				ins, classes = append(ins, q), append(classes, "replay")
+			}
+			if b, ok := rr["body"].(string); ok {
+				replayBodies = append(replayBodies, b)
+			}
+		}
+	}
 	for _, s := range vfC07bCorpus {
 		ins, classes = append(ins, s), append(classes, "corpus")
 	}
@@ -316,6 +328,7 @@ func TestVerifC07b(t *testing.T) {
 		"{\"Q\":\"\\ud800\"}", "{\"Q\":\"a\"}{\"Q\":\"b\"}", "{\"Q\":\"a\"} trailing", "\xff\xfe", "{\"Q\":\"\xff\"}", "{\"Q\":\"a\",\"Opts\":{\"Field\":99}}", "{\"Opts\":{\"Field\":2}}",
 		"{\"Q\":\"r:r\",\"Opts\":{\"Field\":2}}", "{\"Q\":\"r:r\",\"Opts\":{\"Field\":\"x\"}}", "{\"Q\":\"type:repo a\",\"Opts\":{\"MaxDocDisplayCount\":1}}",
 		strings.Repeat("[", 10000), "{\"Q\":\"" + strings.Repeat("(", 3000) + "\"}", "{\"Q\":\"" + strings.Repeat("-", 3000) + "a\"}", "{\"Q\":\"" + strings.Repeat("a or ", 2000) + "a\"}"}
+	bodies = append(replayBodies, bodies...)
 	frag := []string{"{", "}", "[", "]", ":", ",", "\"Q\"", "\"Opts\"", "\"RepoIDs\"", "\"a\"", "\"meta.k:v\"", "\"-case:yes\"", "1", "-1", "null", "true", "1e99", "\"MaxDocDisplayCount\"", "\"Field\"", " ", "\\", "\xff"}
 	for i := 0; i < n/2; i++ {
 		var sb strings.Builder
